@@ -95,6 +95,11 @@ public:
 
   void discretize();
 
+  /**
+   * @brief The classes are given by the user: a request for another number of classes is ignored.
+   */
+  void setNumberOfCategories(size_t) {}
+
   void fireParameterChanged(const ParameterList& parameters);
 
   double getLowerBound() const
